@@ -248,6 +248,14 @@ class CFG:
                 bwd |= self.reaching_to(p, blocked)
         return (fwd & bwd) - {a, b}
 
+    def every_iteration(self, node_id: int, head: int) -> bool:
+        """Is `node_id` (inside loop `head`) executed in every iteration that completes normally?"""
+        body = self.loop_body.get(head, set())
+        if node_id not in body:
+            return False
+        backs = [p for p, lab in self.nodes[head].pred if p in body and lab != "exc"]
+        return bool(backs) and all(self.dominates(node_id, p) or node_id == p for p in backs)
+
     def enclosing_loops(self, node_id: int) -> List[int]:
         return [h for h, body in self.loop_body.items() if node_id in body]
 
